@@ -157,7 +157,8 @@ class Gen:
             form = self.rng.choice(['{p} < 1000', '{p} > -1000', '{p} <= {q} + 2000', '{p}*2 < 2500',
                                     'Ne({p}, 5000)', 'Ne({p}*2, {q} + 7000)', 'Ne({p} + {q}, -3000)',
                                     '{p}*2 + 1 <= {q}**2 + 5000', '{p} >= -{q} - 3000', '-{p} > -1000 - {q}/3',
-                                    '{p}*2 == {q} + 3', 'Eq({p}, {q} + 1)', 'sym-ne', 'sym-le', 'sym-eq'])
+                                    '{p}*2 == {q} + 3', 'Eq({p}, {q} + 1)', 'sym-ne', 'sym-le', 'sym-eq',
+                                    '{p} == {p}', 'Eq({p} + {q}, {q} + {p})'])          # (decided on the spot: 'True')
             if p == q and ('==' in form or 'Eq' in form or form == 'sym-eq'):
                 form = '{p} < 1000'            # (an equation sympy decides on the spot is PF-C10h; a one-variable equation
                 #                                makes TablePT's consistency check raise TypeError - not a storage matter)
@@ -315,7 +316,8 @@ class Gen:
 
     def mk_rep(self, depth, channels, atomic, dur, ident):
         body = self.gen(depth - 1, channels)
-        count = self.rng.choice([1, 2, 3, self.par('n'), self.par('n') + ' + 1', 0])
+        import numpy
+        count = self.rng.choice([1, 2, 3, self.par('n'), self.par('n') + ' + 1', 0, numpy.int64(2), numpy.int32(3)])
         return self.Q['RepetitionPT'](body, count, identifier=ident, measurements=self.meas(1),
                                       parameter_constraints=self.cons())
 
